@@ -123,6 +123,10 @@ func Run(id, level string, f func(t *T)) {
 				if b, ok := r.(brokenErr); ok {
 					fmt.Fprintf(os.Stderr, "BROKEN: property=%s %s\n", t.ID, string(b))
 					t.cleanup()
+					if t.unknownViolations() > 0 {
+						// violations were observed and reported before the harness gave up: they stand
+						os.Exit(1)
+					}
 					os.Exit(2)
 				}
 				buf := make([]byte, 1<<16)
@@ -319,6 +323,13 @@ func (t *T) Violate(key, what string, replayCase any) {
 }
 
 // Violations returns the number of distinct unlisted violation keys so far.
+// unknownViolations counts reported violations that are not listed known findings.
+func (t *T) unknownViolations() int {
+	t.mu.Lock()
+	defer t.mu.Unlock()
+	return len(t.vioOrder)
+}
+
 func (t *T) Violations() int { t.mu.Lock(); defer t.mu.Unlock(); return len(t.vioOrder) }
 
 func oneLine(s string, n int) string {
